@@ -360,9 +360,26 @@ ONCE_SCENARIOS = [
 ]
 
 
+# paths that leave the working directory through `..`: `../x` and `x` are different files
+PARENT_TREE = {"shared/util.lua": U, "app/shared/util.lua": U, "notes.txt": U, "app/notes.txt": U, "app/main.lua": U, "app/lib/m.lua": U, "lib/m.lua": U}
+PARENT_SCENARIOS = [
+    ("parent-dir-then-same-name-dir", ["../shared", "shared"], "app", ["app/shared/util.lua", "shared/util.lua"]),
+    ("same-name-dir-then-parent-dir", ["shared", "../shared"], "app", ["app/shared/util.lua", "shared/util.lua"]),
+    ("cwd-then-parent-non-lua", [".", "../notes.txt"], "app", ["app/lib/m.lua", "app/main.lua", "app/shared/util.lua", "notes.txt"]),
+    ("parent-file-then-same-name-file", ["../lib/m.lua", "lib/m.lua"], "app", ["app/lib/m.lua", "lib/m.lua"]),
+    ("dot-dot-inside", ["lib/../lib/m.lua"], "app", ["app/lib/m.lua"]),
+    ("two-levels-up", ["../../lib/m.lua", "m.lua"], "app/lib", ["app/lib/m.lua", "lib/m.lua"]),
+]
+
+
 def battery():
     binp = common.native_build("default")
     fails = []
+    for name, argv, cwd, want in PARENT_SCENARIOS:
+        r = clireplay.run_cli(binp, PARENT_TREE, ["--no-editorconfig"] + argv, cwd_rel=cwd)
+        got = fmt(r)
+        if got != sorted(want) or r["rc"] != 0:
+            fails.append((name, f"scenario {name} {argv} (cwd {cwd}): formatted {got}, expected {sorted(want)} (rc={r['rc']}) {r['err'][:160]!r}", clireplay.describe(r)))
     for name, argv, want in SCENARIOS:
         r = clireplay.run_cli(binp, TREE, ["--no-editorconfig"] + argv)
         got = fmt(r)
@@ -382,10 +399,10 @@ def battery():
     return fails
 
 
-KIND2SCEN = {"dedup-key": [s_[0] for s_ in ONCE_SCENARIOS], "ignore-root": [s_[0] for s_ in CWD_SCENARIOS],
+KIND2SCEN = {"dedup-key": [s_[0] for s_ in ONCE_SCENARIOS] + [s_[0] for s_ in PARENT_SCENARIOS], "ignore-root": [s_[0] for s_ in CWD_SCENARIOS],
              "ignore": ["explicit-ignored-respect", "explicit-nested-ignore-respect", "respect-several-dirs", "respect-several-dirs-reversed", "respect-nested-then-root-pattern"],
              "setup": ["walk", "walk-allow-hidden", "glob", "overlapping", "dir-and-ignored-file", "dir-below-an-ignore-file", "dir-below-an-ignore-file-slash"],
-             "dedup": ["overlapping"], "select": [s[0] for s in SCENARIOS]}
+             "dedup": ["overlapping"] + [s_[0] for s_ in PARENT_SCENARIOS], "select": [s[0] for s in SCENARIOS] + [s_[0] for s_ in PARENT_SCENARIOS]}
 
 
 def run(ses, rep):
